@@ -38,6 +38,7 @@ def DState.names (st : DState) : Names where
 
 def DState.env (st : DState) : Env where
   lookup m q := (st.envTab.find? (fun e => e.1.1 == m && e.1.2 == q)).map (·.2)
+  funcQual f := (st.names.func f).2
 
 def tyResult (r : Except PyErr Ty) : Sexp :=
   match r with
